@@ -2,7 +2,11 @@ package props
 
 import (
 	"fmt"
+	"go/constant"
 	"go/token"
+	"go/types"
+	"sort"
+	"strings"
 
 	"golang.org/x/tools/go/ssa"
 
@@ -36,47 +40,21 @@ func shapeOfHash(fn *ssa.Function) hashShape {
 		return hashShape{why: "no sha256.Sum256 call"}
 	}
 	sh := hashShape{}
-	v := sum.Call.Args[0]
-	var rev []string
-	for i := 0; i < 8; i++ {
-		k, ok := v.(*ssa.Call)
-		if !ok {
-			break
+	parts, why := preimageParts(fn, sum, sum.Call.Args[0])
+	if why != "" {
+		return hashShape{why: why}
+	}
+	if len(parts) == 0 || !strings.HasPrefix(parts[0], "#") {
+		return hashShape{why: "hash input does not start with a constant byte"}
+	}
+	sh.prefix = parts[0][1:]
+	for _, p := range parts[1:] {
+		if strings.HasPrefix(p, "#") {
+			return hashShape{why: "a second constant byte inside the hash input"}
 		}
-		bi, isB := k.Call.Value.(*ssa.Builtin)
-		if !isB || bi.Name() != "append" || len(k.Call.Args) != 2 {
-			return hashShape{why: "hash input is not built by append"}
-		}
-		rev = append(rev, wholeParam(fn, k.Call.Args[1]))
-		v = k.Call.Args[0]
+		sh.parts = append(sh.parts, p)
 	}
-	// v must be a one-byte slice literal with a constant element
-	sl, ok := v.(*ssa.Slice)
-	if !ok {
-		return hashShape{why: "hash input does not start with a byte literal"}
-	}
-	al, isA := sl.X.(*ssa.Alloc)
-	if !isA || al.Referrers() == nil {
-		return hashShape{why: "hash input does not start with a byte literal"}
-	}
-	for _, r := range *al.Referrers() {
-		if ia, isI := r.(*ssa.IndexAddr); isI && ia.Referrers() != nil {
-			for _, r2 := range *ia.Referrers() {
-				if st, isSt := r2.(*ssa.Store); isSt {
-					if k, isK := st.Val.(*ssa.Const); isK && k.Value != nil {
-						sh.prefix = k.Value.String()
-					}
-				}
-			}
-		}
-	}
-	for i := len(rev) - 1; i >= 0; i-- {
-		sh.parts = append(sh.parts, rev[i])
-	}
-	sh.ok = sh.prefix != ""
-	if !sh.ok {
-		sh.why = "prefix byte is not a constant"
-	}
+	sh.ok = true
 	// the function returns the digest
 	for _, r := range an.Returns(fn) {
 		if len(r.Results) != 1 {
@@ -137,7 +115,11 @@ func runC27(c *an.Ctx) {
 	// (2) MerkleProve
 	var valueRead ssa.Value
 	var hashReads []ssa.Value
-	for _, k := range an.Calls(prove) {
+	var proveCalls []ssa.CallInstruction
+	for _, g := range an.InlineReach(prove) {
+		proveCalls = append(proveCalls, an.Calls(g)...)
+	}
+	for _, k := range proveCalls {
 		o := an.CalleeObj(k.Common())
 		if o == nil {
 			continue
@@ -173,38 +155,100 @@ func runC27(c *an.Ctx) {
 	}
 	// enumerate the sources of the running hash
 	okInit, okStep, nInit, nStep := true, true, 0, 0
-	seen := map[ssa.Value]bool{}
-	var walk func(v ssa.Value)
-	walk = func(v ssa.Value) {
-		if seen[v] {
+	type vkey struct {
+		v ssa.Value
+		n int
+	}
+	seen := map[vkey]bool{}
+	runPhi := map[ssa.Value]bool{}
+	resolvesTo := func(v ssa.Value, ctx []*ssa.Call, pred func(ssa.Value) bool) bool {
+		ds := an.DerefCtx(prove, v, ctx)
+		if len(ds) == 0 {
+			return false
+		}
+		for _, d := range ds {
+			if !pred(d.V) {
+				return false
+			}
+		}
+		return true
+	}
+	var walk func(v ssa.Value, ctx []*ssa.Call)
+	walk = func(v ssa.Value, ctx []*ssa.Call) {
+		k := vkey{v, len(ctx)}
+		if seen[k] {
 			return
 		}
-		seen[v] = true
+		seen[k] = true
+		// through the private helpers MerkleProve is split into (fold loop, combine step)
+		if exp, ok := an.DerefStep(prove, v, ctx); ok {
+			// a helper's failure returns (placeholder hash, non-nil error) do not feed the comparison when the
+			// caller tests that error
+			errTested := false
+			if ex, isEx := v.(*ssa.Extract); isEx {
+				if call, isC := ex.Tuple.(*ssa.Call); isC {
+					n := call.Call.Signature().Results().Len()
+					for _, e := range an.Extracts(call)[n-1] {
+						if e.Referrers() == nil {
+							continue
+						}
+						for _, r := range *e.Referrers() {
+							if b, isB := r.(*ssa.BinOp); isB && (b.Op == token.NEQ || b.Op == token.EQL) {
+								errTested = true
+							}
+						}
+					}
+				}
+			}
+			for _, e := range exp {
+				if errTested && an.FailingReturn(e.Ret) {
+					continue
+				}
+				walk(e.V, e.Ctx)
+			}
+			return
+		}
 		switch x := v.(type) {
 		case *ssa.Phi:
+			runPhi[x] = true
 			for _, e := range x.Edges {
-				walk(e)
+				walk(e, ctx)
 			}
 		case *ssa.Call:
 			callee := x.Call.StaticCallee()
 			switch callee {
 			case leaf:
 				nInit++
-				if x.Call.Args[0] != valueRead {
+				if !resolvesTo(x.Call.Args[0], ctx, func(d ssa.Value) bool { return d == valueRead }) {
 					okInit = false
 				}
 			case child:
 				nStep++
 				a, b := x.Call.Args[0], x.Call.Args[1]
 				isSib := func(v ssa.Value) bool {
-					for _, h := range hashReads {
-						if v == h {
+					return resolvesTo(v, ctx, func(d ssa.Value) bool {
+						for _, h := range hashReads {
+							if d == h {
+								return true
+							}
+						}
+						return false
+					})
+				}
+				isRun := func(v ssa.Value) bool {
+					// the running hash: a loop-carried value of this walk, possibly handed on as a parameter
+					for cur, cctx, i := v, ctx, 0; i < 4; i++ {
+						if _, isPhi := cur.(*ssa.Phi); isPhi && runPhi[cur] {
 							return true
 						}
+						exp, ok := an.DerefStep(prove, cur, cctx)
+						if !ok || len(exp) != 1 {
+							return false
+						}
+						cur, cctx = exp[0].V, exp[0].Ctx
 					}
 					return false
 				}
-				isRun := func(v ssa.Value) bool { _, isPhi := v.(*ssa.Phi); return isPhi && seen[v] }
 				if !(isSib(a) && isRun(b) || isRun(a) && isSib(b)) {
 					okStep = false
 				}
@@ -215,9 +259,9 @@ func runC27(c *an.Ctx) {
 			okInit = false
 		}
 	}
-	walk(running)
+	walk(running, nil)
 	c.Check(okInit && nInit == 1, "prove|MerkleProve|starts-as-leaf-hash-of-value", "the running hash starts, on every path, as HashLeaf of exactly the value read from the path", c.P.Rel(prove.Pos()), fmt.Sprintf("%d HashLeaf sources; another source feeds the running hash or HashLeaf is applied to something else", nInit))
-	c.Check(okStep && nStep == 2, "prove|MerkleProve|steps-are-HashChildren", "the running hash is updated only by HashChildren(sibling, running) or HashChildren(running, sibling) with the sibling read from the path", c.P.Rel(prove.Pos()), fmt.Sprintf("%d HashChildren steps", nStep))
+	c.Check(okStep && nStep >= 1, "prove|MerkleProve|steps-are-HashChildren", "the running hash is updated only by HashChildren(sibling, running) or HashChildren(running, sibling) with the sibling read from the path", c.P.Rel(prove.Pos()), fmt.Sprintf("%d HashChildren steps", nStep))
 	// (3) returned value and guard
 	fail := an.ATrue
 	if cmp.Op == token.EQL {
@@ -241,4 +285,170 @@ func runC27(c *an.Ctx) {
 	c.Check(v.Holds && v.ActionSites >= 1 && okRet, "prove|MerkleProve|value-only-if-root-matches", "the value is returned as proven only on the edge where the computed hash equals the root, and it is the very value whose leaf hash was computed", c.P.Rel(prove.Pos()), v.Witness)
 	// (4) decoder discipline
 	decoderRuleFuncs(c, "decoder", nil, []*ssa.Function{prove})
+}
+
+// preimageParts decomposes the byte string handed to the hash into its parts, in order: "#<c>" for a constant byte,
+// the parameter name for the whole contents of a parameter, "?" for anything else. Two constructions are understood:
+// a chain of appends onto an empty or literal slice, and a local fixed-size array filled by constant-index stores
+// and copy() into constant sub-ranges that tile the array exactly.
+func preimageParts(fn *ssa.Function, at ssa.Instruction, v ssa.Value) ([]string, string) {
+	constByteSlice := func(v ssa.Value) (string, bool) {
+		// []byte{c} : slice of a one-element array literal
+		sl, ok := v.(*ssa.Slice)
+		if !ok {
+			return "", false
+		}
+		al, isA := sl.X.(*ssa.Alloc)
+		if !isA || al.Referrers() == nil {
+			return "", false
+		}
+		arr, isArr := al.Type().(*types.Pointer).Elem().Underlying().(*types.Array)
+		if !isArr || arr.Len() != 1 {
+			return "", false
+		}
+		for _, r := range *al.Referrers() {
+			if ia, isI := r.(*ssa.IndexAddr); isI && ia.Referrers() != nil {
+				for _, r2 := range *ia.Referrers() {
+					if st, isSt := r2.(*ssa.Store); isSt {
+						if k, isK := st.Val.(*ssa.Const); isK && k.Value != nil {
+							return "#" + k.Value.String(), true
+						}
+					}
+				}
+			}
+		}
+		return "", false
+	}
+	// (1) append chain
+	if _, isCall := v.(*ssa.Call); isCall {
+		var rev []string
+		for i := 0; i < 8; i++ {
+			k, ok := v.(*ssa.Call)
+			if !ok {
+				break
+			}
+			bi, isB := k.Call.Value.(*ssa.Builtin)
+			if !isB || bi.Name() != "append" || len(k.Call.Args) != 2 {
+				return nil, "hash input is not built by append"
+			}
+			if cb, isC := constByteSlice(k.Call.Args[1]); isC {
+				rev = append(rev, cb)
+			} else {
+				rev = append(rev, wholeParam(fn, k.Call.Args[1]))
+			}
+			v = k.Call.Args[0]
+		}
+		var parts []string
+		if cb, isC := constByteSlice(v); isC {
+			parts = append(parts, cb)
+		} else if mk, isMk := v.(*ssa.MakeSlice); isMk {
+			if l, isK := mk.Len.(*ssa.Const); !isK || l.Value == nil || constant.Sign(l.Value) != 0 {
+				return nil, "hash input starts with a non-empty buffer"
+			}
+		} else if k, isK := v.(*ssa.Const); !isK || k.Value != nil {
+			return nil, "hash input does not start with a byte literal or an empty slice"
+		}
+		for i := len(rev) - 1; i >= 0; i-- {
+			parts = append(parts, rev[i])
+		}
+		return parts, ""
+	}
+	// (2) a local fixed-size array, sliced whole
+	sl, ok := v.(*ssa.Slice)
+	if !ok || sl.Low != nil || sl.High != nil {
+		return nil, "hash input is neither an append chain nor a whole local array"
+	}
+	al, isA := sl.X.(*ssa.Alloc)
+	if !isA || al.Referrers() == nil {
+		return nil, "hash input is neither an append chain nor a whole local array"
+	}
+	arr, isArr := al.Type().(*types.Pointer).Elem().Underlying().(*types.Array)
+	if !isArr {
+		return nil, "hash input is not an array"
+	}
+	type seg struct {
+		lo, hi int64
+		what   string
+	}
+	var segs []seg
+	constInt := func(v ssa.Value, def int64) (int64, bool) {
+		if v == nil {
+			return def, true
+		}
+		k, isK := v.(*ssa.Const)
+		if !isK || k.Value == nil {
+			return 0, false
+		}
+		n, exact := constant.Int64Val(k.Value)
+		return n, exact
+	}
+	for _, r := range *al.Referrers() {
+		switch x := r.(type) {
+		case *ssa.IndexAddr:
+			i, okI := constInt(x.Index, 0)
+			if !okI || x.Referrers() == nil {
+				return nil, "the array is written at a computed index"
+			}
+			for _, r2 := range *x.Referrers() {
+				if st, isSt := r2.(*ssa.Store); isSt && st.Addr == ssa.Value(x) {
+					if !st.Block().Dominates(at.Block()) {
+						return nil, "a byte of the hash input is written conditionally"
+					}
+					if k, isK := st.Val.(*ssa.Const); isK && k.Value != nil {
+						segs = append(segs, seg{i, i + 1, "#" + k.Value.String()})
+					} else {
+						segs = append(segs, seg{i, i + 1, "?"})
+					}
+				}
+			}
+		case *ssa.Slice:
+			if x == sl {
+				continue
+			}
+			lo, okLo := constInt(x.Low, 0)
+			hi, okHi := constInt(x.High, arr.Len())
+			if !okLo || !okHi || x.Referrers() == nil {
+				return nil, "the array is written through a computed sub-range"
+			}
+			for _, r2 := range *x.Referrers() {
+				k, isC := r2.(*ssa.Call)
+				if !isC {
+					continue
+				}
+				bi, isB := k.Call.Value.(*ssa.Builtin)
+				if !isB || bi.Name() != "copy" || k.Call.Args[0] != ssa.Value(x) {
+					continue
+				}
+				if !k.Block().Dominates(at.Block()) {
+					return nil, "part of the hash input is copied conditionally"
+				}
+				what := wholeParam(fn, k.Call.Args[1])
+				// the copied source must fill the sub-range exactly
+				if srcSl, isS := k.Call.Args[1].(*ssa.Slice); isS {
+					if sa, isSA := srcSl.X.Type().Underlying().(*types.Pointer); isSA {
+						if sarr, isArr2 := sa.Elem().Underlying().(*types.Array); isArr2 && sarr.Len() != hi-lo {
+							what = "?"
+						}
+					}
+				} else {
+					what = "?" // a slice of unknown length may leave bytes of the range unset
+				}
+				segs = append(segs, seg{lo, hi, what})
+			}
+		}
+	}
+	sort.Slice(segs, func(i, j int) bool { return segs[i].lo < segs[j].lo })
+	pos := int64(0)
+	var parts []string
+	for _, s := range segs {
+		if s.lo != pos {
+			return nil, "the parts written into the array do not tile it"
+		}
+		pos = s.hi
+		parts = append(parts, s.what)
+	}
+	if pos != arr.Len() {
+		return nil, "the array is not completely filled"
+	}
+	return parts, ""
 }
